@@ -368,7 +368,7 @@ Proof.
       assert (par b <= par (last_or ltodo 0)) by (apply par_mono; assumption). lia. }
     rewrite HB0, app_nil_r in HAB. subst A. clear HB HB0 B.
     destruct lrest as [|l2 lrest'].
-    + split; [exact Hna|]. rewrite Hel. unfold Lr. cbn [level_cells flat_map]. reflexivity.
+    + split; [exact Hna|]. rewrite Hel. unfold Lr. cbn [level_cells flat_map]. rewrite app_nil_r. reflexivity.
     + pose proof (Forall_inv_tail Hokl) as Hokl'. pose proof (Forall_inv Hokl') as Hl2_ok.
       destruct Hl2_ok as (Hl2ne & Hl2f & _).
       assert (HLr : Lr = cg_cells l2 ++ level_cells lrest') by reflexivity.
